@@ -23,7 +23,7 @@ The model follows poulpy after the repairs docs/fixes/01–03 (gap region, rsh_a
    `v' = v` when the balanced expansion fits.  Proved: the encode half (`encode_value`,
    `encode_frame_*`); the decode half is covered by the round-trip oracle over every (b,k). -/
 -/
-import Poulpy.Lemmas.NormInter
+import Poulpy.Lemmas.NormFused
 
 namespace C08
 open NormL
@@ -208,6 +208,107 @@ theorem rsh_assign_value {b : Nat} {H : Int} (hr : HeadRoom 64 b 0 H) (k : Nat) 
 unit 1/4), `⌈k/b⌉ > size` (was a panic), dirty scratch with `k = 0` (was input + 5) -/
 example : rshAssignCoef 1 2 0 [0, 1] = some [-1, -1] ∧ rshAssignCoef 1 2 0 [1] = some [-1] ∧
     rshAssignCoef 3 0 5 [1, 2, 3] = some [1, 2, 3] := by decide
+
+/-! ### vec_znx_lsh -/
+
+/-- `vec_znx_lsh` (overwrite form) *is* the same-radix normalisation with offset `+k` (unconditional) -/
+theorem lsh_eq_normalize {b : Nat} (hb : 1 ≤ b) (k : Nat) (a res : List Int) :
+    lshCoef .overwrite b k a res = normalizeInterCoef 64 b res.length (k : Int) a :=
+  lshCoef_overwrite_eq hb k a res
+
+/-- **`vec_znx_lsh`**, every shift amount: balanced digits, `a·2^k` (mod 1) within one unit of the last
+output limb, exact when `b·a_size ≤ b·res_size + k`. -/
+theorem lsh_value {b : Nat} {H : Int} (hr : HeadRoom 64 b 0 H) (k : Nat) (a res : List Int)
+    (ha : ∀ x ∈ a, |x| ≤ H) :
+    (lshCoef .overwrite b k a res).length = res.length ∧
+    (∀ d ∈ lshCoef .overwrite b k a res, Balanced b d) ∧
+    TorusNear (valI b (lshCoef .overwrite b k a res)) (b * res.length) (valI b a * 2 ^ k) (b * a.length) ∧
+    (b * a.length ≤ b * res.length + k →
+      TorusEq (valI b (lshCoef .overwrite b k a res)) (b * res.length) (valI b a * 2 ^ k) (b * a.length)) := by
+  have hb : 1 ≤ b := by have := hr.hlsh; omega
+  rw [lshCoef_overwrite_eq hb]
+  have h := normalize_inter_value hr res.length (k : Int) a ha
+  have e1 : ((k : Int)).toNat = k := by omega
+  have e2 : (-(k : Int)).toNat = 0 := by omega
+  rw [e1, e2, Nat.add_zero] at h
+  refine ⟨h.1, h.2.1, h.2.2.1, fun hx => h.2.2.2 ?_⟩
+  have : ((b * a.length : Nat) : Int) ≤ ((b * res.length + k : Nat) : Int) := by exact_mod_cast hx
+  push_cast at this ⊢
+  linarith
+
+example : TorusNear (valI 50 (lshCoef .overwrite 50 57 [2 ^ 62, -(2 ^ 62), 12345] [0, 0])) (50 * 2)
+    (valI 50 [2 ^ 62, -(2 ^ 62), 12345] * 2 ^ 57) (50 * 3) :=
+  (lsh_value (b := 50) (H := 2 ^ 62) ⟨by norm_num, by norm_num, by norm_num, by norm_num, by norm_num⟩ 57 _ [0, 0]
+    (by intro x hx; simp at hx; rcases hx with rfl | rfl | rfl <;> norm_num)).2.2.1
+
+/-! ### fused add / sub forms -/
+
+/-- **fused add, fall-back form** (`res' = res + t` limb-wise with `t` the normalisation into a
+temporary: HAL default of `vec_znx_big_normalize_add_assign` on FFT64, NTT120 for different radices):
+if `t` represents `Y/2^py` within one unit and no limb sum leaves `i64`, then `res' − res` does. -/
+theorem fused_add_fallback_value (b : Nat) (res t : List Int) (hl : res.length = t.length)
+    (hw : ∀ p ∈ List.zip res t, |p.1 + p.2| < 2 ^ 63) {Y : Int} {py : Nat}
+    (h : TorusNear (valI b t) (b * t.length) Y py) :
+    TorusNear (valI b (List.zipWith (fun r x => w64 (r + x)) res t) - valI b res) (b * res.length) Y py :=
+  fused_add_value b res t hl hw h
+
+/-- **fused sub, fall-back form**: `res' − res` represents `−Y/2^py` within one unit -/
+theorem fused_sub_fallback_value (b : Nat) (res t : List Int) (hl : res.length = t.length)
+    (hw : ∀ p ∈ List.zip res t, |p.1 - p.2| < 2 ^ 63) {Y : Int} {py : Nat}
+    (h : TorusNear (valI b t) (b * t.length) Y py) :
+    TorusNear (valI b (List.zipWith (fun r x => w64 (r - x)) res t) - valI b res) (b * res.length) (-Y) py :=
+  fused_sub_value b res t hl hw h
+
+/-- balanced digits of radix ≤ 2^62 added to limbs bounded by 2^62 do not wrap -/
+theorem no_wrap_of_balanced {b : Nat} (hb1 : 1 ≤ b) (hb : b ≤ 62) (res t : List Int)
+    (hres : ∀ r ∈ res, |r| ≤ 2 ^ 62) (ht : ∀ d ∈ t, Balanced b d) :
+    (∀ p ∈ List.zip res t, |p.1 + p.2| < 2 ^ 63) ∧ (∀ p ∈ List.zip res t, |p.1 - p.2| < 2 ^ 63) := by
+  have h1 : (2 : Int) ^ (b - 1) ≤ 2 ^ 61 := two_pow_le (by omega)
+  constructor <;> intro p hp
+  · have hm := List.of_mem_zip hp
+    have := hres _ hm.1; have := (ht _ hm.2).abs_le; have := abs_add_le p.1 p.2; linarith
+  · have hm := List.of_mem_zip hp
+    have := hres _ hm.1; have := (ht _ hm.2).abs_le; have := abs_sub p.1 p.2; linarith
+
+/-- **same-radix `vec_znx_big_normalize_add_assign` (FFT64, per coefficient)**:
+`res' − res` represents `a·2^off` within one unit of the last limb, for limbs of `res` up to `2^62`. -/
+theorem big_normalize_add_value64 {b : Nat} {H : Int} (hr : HeadRoom 64 b 0 H) (hb : b ≤ 62) (off : Int)
+    (a res : List Int) (ha : ∀ x ∈ a, |x| ≤ H) (hres : ∀ r ∈ res, |r| ≤ 2 ^ 62) :
+    TorusNear (valI b (List.zipWith (fun r x => w64 (r + x)) res (normalizeInterCoef 64 b res.length off a)) - valI b res)
+      (b * res.length) (valI b a * 2 ^ off.toNat) (b * a.length + (-off).toNat) := by
+  have hb1 : 1 ≤ b := by have := hr.hlsh; omega
+  have h := normalize_inter_value hr res.length off a ha
+  have hnw := no_wrap_of_balanced hb1 hb res _ hres h.2.1
+  exact fused_add_fallback_value b res _ h.1.symm hnw.1 (by rw [h.1]; exact h.2.2.1)
+
+/-- **`vec_znx_lsh_add_into`**: the fused kernel is the fall-back form, hence `res' − res` represents
+`a·2^k` within one unit of the last limb. -/
+theorem lsh_add_value {b : Nat} {H : Int} (hr : HeadRoom 64 b 0 H) (hb : b ≤ 62) (k : Nat) (a res : List Int)
+    (ha : ∀ x ∈ a, |x| ≤ H) (hres : ∀ r ∈ res, |r| ≤ 2 ^ 62) :
+    TorusNear (valI b (lshCoef .add b k a res) - valI b res) (b * res.length) (valI b a * 2 ^ k) (b * a.length) := by
+  have hb1 : 1 ≤ b := by have := hr.hlsh; omega
+  have hres' : ∀ r ∈ res, |r| < 2 ^ 63 := fun r h => by have := hres r h; linarith
+  rw [lshCoef_fused_eq .add (by decide) b k a res hres']
+  have h := lsh_value hr k a res ha
+  have hnw := no_wrap_of_balanced hb1 hb res _ hres h.2.1
+  exact fused_add_fallback_value b res _ h.1.symm hnw.1 (by rw [h.1]; exact h.2.2.1)
+
+/-- **`vec_znx_lsh_sub`**: `res' − res` represents `−a·2^k` within one unit of the last limb. -/
+theorem lsh_sub_value {b : Nat} {H : Int} (hr : HeadRoom 64 b 0 H) (hb : b ≤ 62) (k : Nat) (a res : List Int)
+    (ha : ∀ x ∈ a, |x| ≤ H) (hres : ∀ r ∈ res, |r| ≤ 2 ^ 62) :
+    TorusNear (valI b (lshCoef .sub b k a res) - valI b res) (b * res.length) (-(valI b a * 2 ^ k)) (b * a.length) := by
+  have hb1 : 1 ≤ b := by have := hr.hlsh; omega
+  have hres' : ∀ r ∈ res, |r| < 2 ^ 63 := fun r h => by have := hres r h; linarith
+  rw [lshCoef_fused_eq .sub (by decide) b k a res hres']
+  have h := lsh_value hr k a res ha
+  have hnw := no_wrap_of_balanced hb1 hb res _ hres h.2.1
+  exact fused_sub_fallback_value b res _ h.1.symm hnw.2 (by rw [h.1]; exact h.2.2.1)
+
+example : TorusNear (valI 50 (lshCoef .add 50 57 [2 ^ 61, -7, 12345] [2 ^ 62, -(2 ^ 62)]) - valI 50 [2 ^ 62, -(2 ^ 62)])
+    (50 * 2) (valI 50 [2 ^ 61, -7, 12345] * 2 ^ 57) (50 * 3) :=
+  lsh_add_value (b := 50) (H := 2 ^ 62) ⟨by norm_num, by norm_num, by norm_num, by norm_num, by norm_num⟩ (by norm_num) 57 _ _
+    (by intro x hx; simp at hx; rcases hx with rfl | rfl | rfl <;> norm_num)
+    (by intro x hx; simp at hx; rcases hx with rfl | rfl <;> norm_num)
 
 /-! ### vec_znx_normalize_assign -/
 
